@@ -35,7 +35,7 @@ import threading
 import time
 from multiprocessing import Pool
 
-from harness import tlc, tlaval, MachineryError, runner
+from harness import tlc, MachineryError, runner
 
 MC_CFG = """SPECIFICATION Spec
 CONSTANTS
